@@ -4,7 +4,7 @@
 From Coq Require Import String.
 From Coq Require Import List NArith ZArith Bool Arith Lia ZifyBool ZifyNat ZifyN.
 From AV Require Import model.Proto model.Chain model.Program model.Ir model.Ast model.Bits
-  model.Decompile model.Naming model.Build proofs.BuildTranslateAux.
+  model.Decompile model.Naming model.Build proofs.BuildTranslateAux proofs.DecompileProofs proofs.NamingProofs.
 Import ListNotations.
 Open Scope Z_scope.
 
@@ -325,7 +325,7 @@ Definition Inv (done todo : list instr) (b : bstate) : Prop := exists ts d1 pend
 Lemma nameof_nonempty k : nameof k <> [].
 Proof using. apply b_name_nonempty. Qed.
 
-Lemma step done k todo' b : P = done ++ k :: todo' -> Inv done (k :: todo') b ->
+Lemma inv_step done k todo' b : P = done ++ k :: todo' -> Inv done (k :: todo') b ->
   exists b', b_step b k (hd_error todo') = Ok b' /\ Inv (done ++ [k]) todo' b'.
 Proof using Hinj Hwf Hreads.
   intros EP (ts & d1 & pend & Ed & Hcx & Etr & Eem & En & Hvars & Hst & Hatoms & Hpl).
@@ -416,7 +416,7 @@ Lemma loop_inv : forall todo done b, P = done ++ todo -> Inv done todo b ->
 Proof using Hinj Hwf Hreads.
   induction todo as [|k todo IH]; intros done b EP HI.
   - exists b. split; [reflexivity|]. rewrite app_nil_r in EP. now subst.
-  - destruct (step done k todo b EP HI) as (b1 & E1 & HI1). cbn [Build.b_loop]. rewrite E1. cbn [obind].
+  - destruct (inv_step done k todo b EP HI) as (b1 & E1 & HI1). cbn [Build.b_loop]. rewrite E1. cbn [obind].
     apply (IH (done ++ [k]) b1); [rewrite <- app_assoc; exact EP|exact HI1].
 Qed.
 
@@ -442,3 +442,545 @@ Proof using Hinj Hwf Hreads.
 Qed.
 
 End BT.
+
+(* ------------------------------------------------------------------ *)
+(* pass.ReadCounts is the number of occurrences among all inputs        *)
+(* ------------------------------------------------------------------ *)
+
+Lemma rc_get_bump m y x : rc_get (rc_bump m y) x = (rc_get m x + (if Z.eq_dec y x then 1 else 0))%nat.
+Proof.
+  unfold rc_bump, rc_get at 1. cbn [zlookup]. destruct (Z.eq_dec y x) as [->|Hne].
+  - rewrite Z.eqb_refl. lia.
+  - apply Z.eqb_neq in Hne. rewrite Hne. fold (rc_get m x). lia.
+Qed.
+
+Lemma rc_fold_inputs : forall l m x,
+  rc_get (fold_left rc_bump l m) x = (rc_get m x + count_occ Z.eq_dec l x)%nat.
+Proof.
+  induction l as [|y l IH]; intros m x; cbn [fold_left count_occ]; [lia|].
+  rewrite IH, rc_get_bump. destruct (Z.eq_dec y x); lia.
+Qed.
+
+Lemma rc_fold_prog : forall P m x,
+  rc_get (fold_left (fun m i => fold_left rc_bump (input_indexes i) m) P m) x =
+  (rc_get m x + count_occ Z.eq_dec (flat_map input_indexes P) x)%nat.
+Proof.
+  induction P as [|i P IH]; intros m x; cbn [fold_left flat_map]; [cbn; lia|].
+  rewrite IH, rc_fold_inputs, count_occ_app. lia.
+Qed.
+
+Lemma read_counts_ir_reads P : forall x pre k post, P = pre ++ k :: post ->
+  rc_get (read_counts_ir P) x = 1%nat -> In x (input_indexes k) ->
+  count_occ Z.eq_dec (input_indexes k) x = 1%nat /\ forall i, In i (pre ++ post) -> ~ In x (input_indexes i).
+Proof.
+  intros x pre k post EP H1 Hin. unfold read_counts_ir in H1. rewrite rc_fold_prog in H1.
+  change (rc_get [] x) with O in H1. rewrite EP, flat_map_app in H1. cbn [flat_map] in H1.
+  rewrite !count_occ_app in H1.
+  assert (Hk : (count_occ Z.eq_dec (input_indexes k) x > 0)%nat) by (now apply count_occ_In).
+  split; [lia|]. intros i Hi Hx. apply in_app_or in Hi as [Hi|Hi].
+  - assert (Hc : In x (flat_map input_indexes pre)) by (apply in_flat_map; eauto).
+    apply (count_occ_In Z.eq_dec) in Hc. lia.
+  - assert (Hc : In x (flat_map input_indexes post)) by (apply in_flat_map; eauto).
+    apply (count_occ_In Z.eq_dec) in Hc. lia.
+Qed.
+
+(* ------------------------------------------------------------------ *)
+(* what a successful pass.Compile says about the instruction list       *)
+(* ------------------------------------------------------------------ *)
+
+(* an operation with its operands in ascending order *)
+Definition cop (o : op) : op := if (snd o <? fst o)%nat then (snd o, fst o) else o.
+
+Definition pos_shifts (P : iprogram) : Prop := forall i, In i P -> 1 <= width (iopn i).
+
+Lemma add_ok_inv (p : list op) i j p' o : add p i j = (p', Ok o) ->
+  0 <= i <= Z.of_nat (length p) /\ 0 <= j <= Z.of_nat (length p).
+Proof.
+  unfold add, boundscheck.
+  destruct (i <? 0) eqn:E1; [cbn; congruence|]. destruct (i >? Z.of_nat (length p)) eqn:E2; [cbn; congruence|].
+  destruct (j <? 0) eqn:E3; [cbn; congruence|]. destruct (j >? Z.of_nat (length p)) eqn:E4; [cbn; congruence|].
+  intros _. rewrite Z.gtb_ltb in E2, E4. apply Z.ltb_ge in E1, E2, E3, E4. lia.
+Qed.
+
+Lemma add_Z_ok (p : list op) i j : 0 <= i <= Z.of_nat (length p) -> 0 <= j <= Z.of_nat (length p) ->
+  add p i j = (p ++ [(Z.to_nat i, Z.to_nat j)], Ok (Z.of_nat (S (length p)))).
+Proof.
+  intros Hi Hj. rewrite <- (Z2Nat.id i) at 1 by lia. rewrite <- (Z2Nat.id j) at 1 by lia.
+  apply DecompileProofs.add_ok; lia.
+Qed.
+
+Lemma cop_run j m : map cop (DecompileProofs.dbl_run j m) = DecompileProofs.dbl_run j m.
+Proof.
+  unfold DecompileProofs.dbl_run. rewrite map_map. apply map_ext. intros t. unfold cop. cbn [fst snd].
+  now rewrite Nat.ltb_irrefl.
+Qed.
+
+Lemma cop_pair i j : 0 <= i -> 0 <= j ->
+  cop (Z.to_nat i, Z.to_nat j) = if j <? i then (Z.to_nat j, Z.to_nat i) else (Z.to_nat i, Z.to_nat j).
+Proof.
+  intros Hi Hj. unfold cop. cbn [fst snd]. destruct (j <? i) eqn:E.
+  - apply Z.ltb_lt in E. assert (H : (Z.to_nat j <? Z.to_nat i)%nat = true) by (apply Nat.ltb_lt; lia). now rewrite H.
+  - apply Z.ltb_ge in E. assert (H : (Z.to_nat j <? Z.to_nat i)%nat = false) by (apply Nat.ltb_ge; lia). now rewrite H.
+Qed.
+
+Lemma step_ok_inv pre o prog' res : 1 <= width o -> step pre (call_of o) = (prog', Ok res) ->
+  res = Z.of_nat (length pre) + width o /\
+  (forall x, In x (map oindex (inputs o)) -> 0 <= x <= Z.of_nat (length pre)) /\
+  Z.of_nat (length prog') = Z.of_nat (length pre) + width o /\
+  (exists q, prog' = pre ++ q) /\
+  step (map cop pre) (call_of (canon_op o)) = (map cop prog', Ok res).
+Proof.
+  intros Hw H. destruct o as [x y|x|x s]; cbn [call_of step width inputs map canon_op] in *.
+  - destruct (add_ok_inv _ _ _ _ _ H) as [Hx Hy]. rewrite add_Z_ok in H by assumption.
+    injection H as <- <-. split; [lia|]. split; [intros z [<-|[<-|[]]]; assumption|].
+    split; [rewrite app_length; cbn [length]; lia|]. split; [eauto|].
+    rewrite map_app. cbn [map]. rewrite cop_pair by lia.
+    destruct (oindex y <? oindex x); cbn [call_of step io index_operand oindex];
+      rewrite add_Z_ok by (rewrite map_length; assumption); rewrite map_length; reflexivity.
+  - unfold double in *. destruct (add_ok_inv _ _ _ _ _ H) as [Hx _]. rewrite add_Z_ok in H by assumption.
+    injection H as <- <-. split; [lia|]. split; [intros z [<-|[]]; assumption|].
+    split; [rewrite app_length; cbn [length]; lia|]. split; [eauto|].
+    rewrite map_app. cbn [map]. rewrite cop_pair by lia. rewrite Z.ltb_irrefl.
+    cbn [io index_operand oindex]. rewrite add_Z_ok by (rewrite map_length; assumption). rewrite map_length. reflexivity.
+  - unfold shift in *. destruct (N.to_nat s) as [|s'] eqn:Es; [lia|].
+    assert (Hx : 0 <= oindex x <= Z.of_nat (length pre)).
+    { cbn [shift_loop] in H. unfold double in H. destruct (add pre (oindex x) (oindex x)) as [p1 [n1| | |]] eqn:Ea;
+        try (injection H as _ H; discriminate). now destruct (add_ok_inv _ _ _ _ _ Ea). }
+    rewrite <- (Z2Nat.id (oindex x)) in H by lia. rewrite DecompileProofs.shift_loop_spec in H by lia.
+    injection H as <- <-. split; [lia|]. split; [intros z [<-|[]]; assumption|].
+    split; [rewrite app_length; cbn [length]; rewrite DecompileProofs.dbl_run_length; lia|]. split; [eauto|].
+    cbn [io index_operand oindex].
+    rewrite <- (Z2Nat.id (oindex x)) at 1 by lia. rewrite DecompileProofs.shift_loop_spec by (rewrite map_length; lia).
+    rewrite map_length, map_app. cbn [map]. rewrite cop_run. unfold cop. cbn [fst snd]. now rewrite Nat.ltb_irrefl.
+Qed.
+
+Lemma compile_facts : forall P pre prog, compile_loop pre P = Ok prog -> pos_shifts P ->
+  wfrom (Z.of_nat (length pre) + 1) P /\
+  nafter (Z.of_nat (length pre) + 1) P = Z.of_nat (length prog) + 1 /\
+  (length pre <= length prog)%nat /\
+  (forall x, In x (operand_indexes P) -> 0 <= x <= Z.of_nat (length prog)) /\
+  compile_loop (map cop pre) (map canon_inst P) = Ok (map cop prog).
+Proof.
+  induction P as [|i P IH]; intros pre prog H Hpos.
+  - cbn [compile_loop] in H. injection H as <-. cbn [wfrom nafter map compile_loop].
+    split; [exact I|]. split; [reflexivity|]. split; [lia|]. split; [intros x0 []|reflexivity].
+  - cbn [compile_loop] in H. destruct (step pre (call_of (iopn i))) as [prog' o] eqn:Es.
+    destruct o as [res| | |]; try discriminate.
+    destruct (res =? oindex (iout i)) eqn:Eres; [|discriminate]. apply Z.eqb_eq in Eres.
+    assert (Hw : 1 <= width (iopn i)) by (apply Hpos; now left).
+    destruct (step_ok_inv _ _ _ _ Hw Es) as (Hres & Hin & Hlen & _ & Hc).
+    destruct (IH prog' prog H) as (IH1 & IH2 & IH3 & IH4 & IH5). { intros j Hj. apply Hpos. now right. }
+    replace (Z.of_nat (length prog') + 1) with (Z.of_nat (length pre) + 1 + width (iopn i)) in IH1, IH2 by lia.
+    split; [cbn [wfrom]; unfold out; repeat split; [exact Hw|lia|exact IH1]|].
+    split; [cbn [nafter]; exact IH2|]. split; [lia|]. split.
+    + intros x Hx. unfold operand_indexes in Hx. cbn [flat_map] in Hx. apply in_app_or in Hx as [Hx|Hx]; [|now apply IH4].
+      apply in_app_or in Hx as [Hx|[<-|[]]].
+      * specialize (Hin x Hx). lia.
+      * lia.
+    + cbn [map compile_loop canon_inst iopn iout]. rewrite Hc. unfold out, io, index_operand. cbn [oindex].
+      rewrite Eres, Z.eqb_refl. exact IH5.
+Qed.
+
+Lemma pos_shifts_dec_loop nr : forall p i skip, pos_shifts (dec_loop nr i skip p).
+Proof.
+  induction p as [|[a b] p IH]; intros i skip j Hj; [destruct Hj|].
+  cbn [dec_loop] in Hj. destruct skip as [|k]; [|eapply IH; eauto].
+  destruct (negb (a =? b)%nat); [destruct Hj as [<-|Hj]; [cbn; lia|eapply IH; eauto]|].
+  destruct (S (run_len nr (S i) p) =? 1)%nat; (destruct Hj as [<-|Hj]; [cbn [iopn width]; lia|eapply IH; eauto]).
+Qed.
+
+(* ------------------------------------------------------------------ *)
+(* Program.Evaluate                                                     *)
+(* ------------------------------------------------------------------ *)
+
+Lemma evaluate_from_spec : forall p c, c <> [] -> DecompileProofs.wf_from (length c - 1) p ->
+  (forall v, In v c -> 1 <= v) ->
+  exists c', evaluate_from c p = Ok c' /\ length c' = (length c + length p)%nat /\ forall v, In v c' -> 1 <= v.
+Proof.
+  induction p as [|[a b] p IH]; intros c Hc Hwf Hpos.
+  - exists c. cbn. repeat split; auto.
+  - destruct (Hwf O a b eq_refl) as [Ha Hb].
+    assert (Hl : (0 < length c)%nat) by (destruct c; [contradiction|cbn; lia]).
+    destruct (nth_error c a) as [va|] eqn:Ea; [|apply nth_error_None in Ea; lia].
+    destruct (nth_error c b) as [vb|] eqn:Eb; [|apply nth_error_None in Eb; lia].
+    cbn [evaluate_from]. rewrite Ea, Eb.
+    destruct (IH (c ++ [va + vb])) as (c' & E & Hlen & Hp').
+    + destruct c; discriminate.
+    + rewrite app_length. cbn [length]. replace (length c + 1 - 1)%nat with (S (length c - 1)) by lia.
+      eapply DecompileProofs.wf_from_tail; eauto.
+    + intros v Hv. apply in_app_or in Hv as [Hv|[<-|[]]]; [now apply Hpos|].
+      apply nth_error_In in Ea, Eb. pose proof (Hpos _ Ea). pose proof (Hpos _ Eb). lia.
+    + exists c'. split; [exact E|]. split; [|exact Hp']. rewrite Hlen, app_length. cbn [length]. lia.
+Qed.
+
+Lemma evaluate_spec p : wf_program p ->
+  exists c, evaluate p = Ok c /\ length c = S (length p) /\ forall v, In v c -> 1 <= v.
+Proof.
+  intros Hwf. destruct (evaluate_from_spec p [1]) as (c & E & Hl & Hp).
+  - discriminate.
+  - cbn [length]. now apply DecompileProofs.wf_program_from.
+  - intros v [<-|[]]. lia.
+  - exists c. auto.
+Qed.
+
+(* ------------------------------------------------------------------ *)
+(* every expression the builder writes is well formed                   *)
+(* ------------------------------------------------------------------ *)
+
+(* B bounds operand indexes and shift amounts (the program length) *)
+Fixpoint good_expr (B : Z) (e : expr) : Prop :=
+  match e with
+  | EOperand i => 0 <= i <= B
+  | EIdent s => ident_ok s = true /\ dbl_class s = false
+  | EAdd x y => good_expr B x /\ good_expr B y
+  | EShift x s => good_expr B x /\ Z.of_N s <= B
+  | EDouble x => good_expr B x
+  end.
+
+Lemma good_wf B e : B < 2 ^ 63 -> good_expr B e -> forall sh, wf_expr sh e = true.
+Proof.
+  intros HB. induction e as [i|s|a IHa b IHb|a IHa s|a IHa]; cbn [good_expr wf_expr]; intros H sh.
+  - apply andb_true_iff. split; [apply Z.leb_le; lia|apply Z.ltb_lt; lia].
+  - destruct H as [H1 H2]. rewrite H1, H2. now rewrite andb_false_r.
+  - destruct H as [H1 H2]. now rewrite IHa, IHb.
+  - destruct H as [H1 H2]. rewrite IHa by assumption. apply N.ltb_lt.
+    assert (Z.of_N s < 2 ^ 64) by lia. change (2 ^ 64) with (Z.of_N (2 ^ 64)%N) in H. lia.
+  - now apply IHa.
+Qed.
+
+Definition good_state (B : Z) (b : bstate) : Prop :=
+  (forall k e, zlookup k (b_expr b) = Some e -> good_expr B e) /\
+  (forall s, In s (b_stmts b) -> good_expr B (sexpr s)).
+
+Definition good_instr (tbl : list (Z * list N)) (B : Z) (i : instr) : Prop :=
+  (forall x, In x (input_indexes i) -> 0 <= x <= B) /\ width (iopn i) <= B /\
+  ident_ok (nameof tbl (out i)) = true /\ dbl_class (nameof tbl (out i)) = false.
+
+Lemma good_operand B b x : good_state B b -> 0 <= x <= B -> good_expr B (b_operand b x).
+Proof.
+  intros [H _] Hx. unfold b_operand. destruct (zlookup x (b_expr b)) eqn:E; [eapply H; eauto|exact Hx].
+Qed.
+
+Lemma b_step_good tbl rc B b i nxt b' : good_state B b -> good_instr tbl B i ->
+  b_step tbl rc b i nxt = Ok b' -> good_state B b'.
+Proof.
+  intros Hg (Hin & Hw & Hn1 & Hn2) H. unfold b_step in H.
+  destruct (b_operator b (iopn i)) as [e| | |] eqn:Eo; try discriminate. cbn [obind] in H.
+  assert (He : good_expr B e).
+  { destruct (iopn i) as [x y|x|x s] eqn:Ei; unfold input_indexes in Hin; rewrite Ei in Hin; cbn [inputs map] in Hin;
+      cbn [b_operator] in Eo.
+    - unfold b_add in Eo.
+      assert (Gx : good_expr B (b_operand b (oindex x))) by (apply good_operand; [assumption|apply Hin; now left]).
+      assert (Gy : good_expr B (b_operand b (oindex y))) by (apply good_operand; [assumption|apply Hin; right; now left]).
+      destruct (is_op (b_operand b (oindex x)) && is_op (b_operand b (oindex y))); [discriminate|].
+      destruct (is_op (b_operand b (oindex y))); injection Eo as <-; cbn [good_expr]; auto.
+    - injection Eo as <-. cbn [good_expr]. apply good_operand; [assumption|apply Hin; now left].
+    - injection Eo as <-. cbn [good_expr]. split; [apply good_operand; [assumption|apply Hin; now left]|].
+      cbn [width] in Hw. exact Hw. }
+  destruct Hg as [G1 G2].
+  match type of H with (if ?c then _ else _) = _ => destruct c end; injection H as <-; split; cbn [b_expr b_stmts].
+  - intros k e0 Hk. cbn [zlookup] in Hk. destruct (oindex (iout i) =? k); [injection Hk as <-; exact He|eapply G1; eauto].
+  - exact G2.
+  - intros k e0 Hk. cbn [zlookup] in Hk. destruct (oindex (iout i) =? k); [|eapply G1; eauto].
+    injection Hk as <-. cbn [good_expr]. split; assumption.
+  - intros s Hs. apply in_app_or in Hs as [Hs|[<-|[]]]; [now apply G2|exact He].
+Qed.
+
+Lemma b_loop_good tbl rc B : forall P b b', good_state B b -> (forall i, In i P -> good_instr tbl B i) ->
+  b_loop tbl rc b P = Ok b' -> good_state B b'.
+Proof.
+  induction P as [|i P IH]; intros b b' Hg Hi H; cbn [b_loop] in H.
+  - injection H as <-. exact Hg.
+  - destruct (b_step tbl rc b i (hd_error P)) as [b1| | |] eqn:E1; try discriminate. cbn [obind] in H.
+    apply (IH b1 b'); [eapply b_step_good; eauto; apply Hi; now left|intros j Hj; apply Hi; now right|exact H].
+Qed.
+
+(* ------------------------------------------------------------------ *)
+(* clearing the last name; names that Translate accepts are distinct     *)
+(* ------------------------------------------------------------------ *)
+
+Lemma clear_last_snoc : forall init s, clear_last (init ++ [s]) = Ok (init ++ [mkStmt [] (sexpr s)]).
+Proof.
+  induction init as [|x init IH]; intros s; [reflexivity|].
+  cbn [app]. change (clear_last (x :: init ++ [s])) with
+    (match init ++ [s] with [] => Ok [mkStmt [] (sexpr x)] | _ :: _ => obind (clear_last (init ++ [s])) (fun r' => Ok (x :: r')) end).
+  rewrite IH. destruct (init ++ [s]) eqn:E; [destruct init; discriminate|reflexivity].
+Qed.
+
+Lemma tr_stmt_inv st s st' : tr_stmt st s = Ok st' ->
+  exists i st1, tr_expr (sexpr s) st = Ok (i, st1) /\ slookup (sname s) (t_vars st1) = None /\
+    st' = mkT (t_n st1) ((sname s, i) :: t_vars st1) (t_emitted st1).
+Proof.
+  unfold tr_stmt. destruct (tr_expr (sexpr s) st) as [[i st1]| | |]; try discriminate. cbn [obind].
+  destruct (slookup (sname s) (t_vars st1)) eqn:E; [discriminate|]. intros H. injection H as <-. eauto.
+Qed.
+
+Lemma tr_stmts_names : forall ss st st', tr_stmts ss st = Ok st' ->
+  map fst (t_vars st') = rev (map sname ss) ++ map fst (t_vars st) /\
+  (NoDup (map fst (t_vars st)) -> NoDup (map fst (t_vars st'))).
+Proof.
+  induction ss as [|s ss IH]; intros st st' H; cbn [tr_stmts] in H.
+  - injection H as <-. split; [reflexivity|auto].
+  - destruct (tr_stmt st s) as [st1| | |] eqn:E1; try discriminate. cbn [obind] in H.
+    destruct (tr_stmt_inv _ _ _ E1) as (i & st2 & Ee & Hnone & ->).
+    destruct (IH _ _ H) as [Hn Hd]. cbn [t_vars map fst] in Hn, Hd.
+    rewrite (tr_expr_vars _ _ _ _ Ee) in *. split.
+    + rewrite Hn. cbn [map rev]. now rewrite <- app_assoc.
+    + intros Hnd. apply Hd. constructor; [|exact Hnd].
+      intros Hin. apply in_map_iff in Hin as ([k v] & Ek & Hin). cbn [fst] in Ek. subst k.
+      exact (slookup_none _ _ Hnone v Hin).
+Qed.
+
+Lemma tr_clear_last ss ts0 : ss <> [] -> tr_stmts ss t_init = Ok ts0 -> (forall v, ~ In ([], v) (t_vars ts0)) ->
+  exists init s ts', ss = init ++ [s] /\ clear_last ss = Ok (init ++ [mkStmt [] (sexpr s)]) /\
+    tr_stmts (init ++ [mkStmt [] (sexpr s)]) t_init = Ok ts' /\ t_emitted ts' = t_emitted ts0 /\
+    (forall nm idx, In (nm, idx) (t_vars ts') -> nm <> [] -> In (nm, idx) (t_vars ts0)).
+Proof.
+  intros Hne Htr Hnil. destruct (exists_last Hne) as (init & s & ->).
+  rewrite tr_stmts_app in Htr. destruct (tr_stmts init t_init) as [st1| | |] eqn:E1; try discriminate.
+  cbn [obind tr_stmts] in Htr. destruct (tr_stmt st1 s) as [st2| | |] eqn:E2; try discriminate.
+  cbn [obind] in Htr. injection Htr as <-.
+  destruct (tr_stmt_inv _ _ _ E2) as (i & st3 & Ee & Hnone & ->). cbn [t_vars] in Hnil.
+  assert (Hn0 : slookup [] (t_vars st3) = None).
+  { destruct (slookup [] (t_vars st3)) eqn:E; [|reflexivity]. exfalso. apply slookup_in in E.
+    apply (Hnil z). now right. }
+  exists init, s, (mkT (t_n st3) (([], i) :: t_vars st3) (t_emitted st3)).
+  split; [reflexivity|]. split; [apply clear_last_snoc|]. split.
+  - rewrite tr_stmts_app, E1. cbn [obind tr_stmts]. unfold tr_stmt. cbn [sname sexpr]. rewrite Ee. cbn [obind].
+    rewrite Hn0. reflexivity.
+  - split; [reflexivity|]. cbn [t_vars]. intros nm idx [Hin|Hin] Hnm; [injection Hin as <- _; contradiction|now right].
+Qed.
+
+Lemma wf_script_intro : forall init e,
+  (forall s, In s init -> ident_ok (sname s) = true /\ wf_expr true (sexpr s) = true) ->
+  wf_expr true e = true -> wf_script (init ++ [mkStmt [] e]) = true.
+Proof.
+  induction init as [|x init IH]; intros e Hi He; [exact He|].
+  cbn [app]. change (wf_script (x :: init ++ [mkStmt [] e])) with
+    (match init ++ [mkStmt [] e] with
+     | [] => match sname x with [] => wf_expr true (sexpr x) | _ => false end
+     | _ :: _ => ident_ok (sname x) && wf_expr true (sexpr x) && wf_script (init ++ [mkStmt [] e])
+     end).
+  destruct (init ++ [mkStmt [] e]) eqn:E; [destruct init; discriminate|]. rewrite <- E.
+  destruct (Hi x (or_introl eq_refl)) as [H1 H2]. rewrite H1, H2, IH; auto. intros s0 Hs0. apply Hi. now right.
+Qed.
+
+(* ------------------------------------------------------------------ *)
+(* Decompile, naming passes and Build together                          *)
+(* ------------------------------------------------------------------ *)
+
+Lemma decompile_inv p q : decompile p = Ok q -> exists nr, q = dec_loop nr O O p.
+Proof.
+  unfold decompile. destruct (read_counts p) as [nr| | |]; try discriminate. cbn [obind].
+  intros H. injection H as <-. eauto.
+Qed.
+
+Lemma out_in_operand_indexes P i : In i (map out P) -> In i (operand_indexes P).
+Proof.
+  intros H. apply in_map_iff in H as (k & <- & Hk). unfold operand_indexes. apply in_flat_map.
+  exists k. split; [assumption|]. apply in_or_app. right. left. reflexivity.
+Qed.
+
+Lemma input_in_operand_indexes P k x : In k P -> In x (input_indexes k) -> In x (operand_indexes P).
+Proof.
+  intros Hk Hx. unfold operand_indexes. apply in_flat_map. exists k. split; [assumption|]. apply in_or_app. now left.
+Qed.
+
+Lemma wfrom_width : forall P m, wfrom m P -> 1 <= m -> forall i, In i P -> width (iopn i) <= out i.
+Proof.
+  induction P as [|j P IH]; intros m Hw Hm i Hi; [destruct Hi|].
+  cbn [wfrom] in Hw. destruct Hw as (H1 & H2 & H3). destruct Hi as [<-|Hi]; [lia|].
+  apply (IH (m + width (iopn j))); [assumption|lia|assumption].
+Qed.
+
+Theorem build_facts p c : wf_program p -> evaluate p = Ok c -> NoDup c ->
+  exists t ts, build_program p = Ok t /\ tr_stmts t t_init = Ok ts /\
+    compile (t_emitted ts) = Ok (map cop p) /\
+    (exists init last, t = init ++ [last] /\ sname last = [] /\
+       forall s, In s init -> exists k, 0 <= k < Z.of_nat (length c) /\
+                                       sname s = stmt_name (nth (Z.to_nat k) c 0) k) /\
+    (forall nm idx, In (nm, idx) (t_vars ts) -> nm <> [] ->
+       0 <= idx < Z.of_nat (length c) /\ nm = stmt_name (nth (Z.to_nat idx) c 0) idx) /\
+    (forall s, In s t -> good_expr (Z.of_nat (length p)) (sexpr s)).
+Proof.
+  intros Hwf Hev Hnd.
+  destruct (decompile_expand p Hwf) as (q & Eq & Ec).
+  destruct (evaluate_spec p Hwf) as (c' & Ec' & Hlen & Hpos). rewrite Hev in Ec'. injection Ec' as <-.
+  unfold build_program. rewrite Eq. cbn [obind]. unfold build.
+  assert (Hps : pos_shifts q) by (destruct (decompile_inv _ _ Eq) as (nr & ->); apply pos_shifts_dec_loop).
+  destruct (compile_facts q [] p Ec Hps) as (Hwfq & Hnaf & _ & Hidx & Hcc).
+  change (Z.of_nat (length (@nil op)) + 1) with 1 in Hwfq, Hnaf. change (map cop []) with (@nil op) in Hcc.
+  assert (Heval : eval_ir q = Ok c) by (unfold eval_ir; rewrite Ec; exact Hev).
+  destruct (name_operands_spec q c Heval) as (tbl & Etbl & Hid).
+  { intros x Hx. specialize (Hidx x Hx). lia. }
+  rewrite Etbl. cbn [obind].
+  (* the name of every output *)
+  assert (Hname : forall k, In k (map out q) ->
+            0 <= k < Z.of_nat (length c) /\ nameof tbl k = stmt_name (nth (Z.to_nat k) c 0) k).
+  { intros k Hk. apply out_in_operand_indexes in Hk. specialize (Hidx k Hk). split; [lia|].
+    unfold nameof, stmt_name. now rewrite (Hid k Hk). }
+  assert (Hval : forall k, 0 <= k < Z.of_nat (length c) -> 1 <= nth (Z.to_nat k) c 0).
+  { intros k Hk. apply Hpos. apply nth_In. lia. }
+  assert (Hinj : forall i j, In i (map out q) -> In j (map out q) -> nameof tbl i = nameof tbl j -> i = j).
+  { intros i j Hi Hj E. destruct (Hname i Hi) as [Ri Ei]. destruct (Hname j Hj) as [Rj Ej].
+    rewrite Ei, Ej in E. pose proof (Hval i Ri) as Vi. pose proof (Hval j Rj) as Vj.
+    assert (Pi : 0 <= nth (Z.to_nat i) c 0) by lia. assert (Pj : 0 <= nth (Z.to_nat j) c 0) by lia.
+    destruct (stmt_name_inj _ _ _ _ Pi Pj (proj1 Ri) (proj1 Rj) E) as [Ev|Ev]; [|exact Ev].
+    assert (Z.to_nat i = Z.to_nat j); [|lia].
+    apply (proj1 (NoDup_nth c 0) Hnd); [lia|lia|exact Ev]. }
+  destruct q as [|i0 q'] eqn:Eqq.
+  - (* the one-element chain *)
+    cbn in Ec. injection Ec as <-. cbn [process].
+    exists [mkStmt [] (EOperand 0)], (mkT 1 [([], 0)] []).
+    split; [reflexivity|]. split; [reflexivity|]. split; [reflexivity|]. split.
+    { exists [], (mkStmt [] (EOperand 0)). split; [reflexivity|]. split; [reflexivity|]. intros s []. }
+    split.
+    { intros nm idx [Hin|[]] Hnm. injection Hin as <- _. contradiction. }
+    intros s [<-|[]]. cbn. lia.
+  - rewrite <- Eqq in *. assert (Hqne : q <> []) by (rewrite Eqq; discriminate).
+    destruct (build_translate_loop tbl (read_counts_ir q) q Hinj Hwfq (read_counts_ir_reads q))
+      as (b & ts0 & Eb & Etr0 & Eem0 & En0 & Hvars0 & Hst0).
+    assert (Hproc : process tbl (read_counts_ir q) q = obind (b_loop tbl (read_counts_ir q) b_init q) (fun b => clear_last (b_stmts b))).
+    { rewrite Eqq. reflexivity. }
+    rewrite Hproc, Eb. cbn [obind].
+    assert (Hsne : b_stmts b <> []).
+    { intros E. rewrite E in Etr0. cbn in Etr0. injection Etr0 as <-. cbn in Eem0.
+      destruct q; [contradiction|discriminate]. }
+    destruct (tr_clear_last _ _ Hsne Etr0) as (init & s & ts' & Es & Ecl & Etr' & Eem' & Hv').
+    { intros v Hv. destruct (Hvars0 _ _ Hv) as [E _]. symmetry in E. exact (nameof_nonempty tbl v E). }
+    rewrite Ecl. exists (init ++ [mkStmt [] (sexpr s)]), ts'.
+    split; [reflexivity|]. split; [exact Etr'|]. split; [rewrite Eem', Eem0; exact Hcc|]. split.
+    { exists init, (mkStmt [] (sexpr s)). split; [reflexivity|]. split; [reflexivity|].
+      intros s0 Hs0. destruct (Hst0 s0) as (k & Hk & Ek); [rewrite Es; apply in_or_app; now left|].
+      destruct (Hname k Hk) as [Rk Enk]. exists k. split; [exact Rk|]. now rewrite Ek. }
+    split.
+    { intros nm idx Hin Hnm. destruct (Hvars0 _ _ (Hv' _ _ Hin Hnm)) as [E Hk].
+      destruct (Hname idx Hk) as [Rk Enk]. split; [exact Rk|]. now rewrite E. }
+    (* expressions *)
+    assert (Hgood : good_state (Z.of_nat (length p)) b).
+    { apply (b_loop_good tbl (read_counts_ir q) (Z.of_nat (length p)) q b_init b); [|intros i Hi|exact Eb].
+      - split; [intros k e Hk; discriminate|intros s1 []].
+      - assert (Hio : In (out i) (map out q)) by (apply in_map; exact Hi).
+        destruct (Hname _ Hio) as [Rk Enk]. pose proof (Hval _ Rk) as Hv1.
+        assert (Pv : 0 <= nth (Z.to_nat (out i)) c 0) by lia.
+        destruct (stmt_name_shape (nth (Z.to_nat (out i)) c 0) (out i) Pv (proj1 Rk)) as [Hsh _].
+        rewrite <- Enk in Hsh. destruct (name_shape_legal _ Hsh) as [L1 L2].
+        split; [|split; [|split; [exact L1|exact L2]]].
+        + intros x Hx. apply Hidx. eapply input_in_operand_indexes; eauto.
+        + assert (H1 : 1 <= 1) by lia. pose proof (wfrom_width q 1 Hwfq H1 i Hi). lia. }
+    intros s0 Hs0. destruct Hgood as [_ G2]. apply in_app_or in Hs0 as [Hs0|[<-|[]]].
+    + apply G2. rewrite Es. apply in_or_app. now left.
+    + cbn [sexpr]. apply G2. rewrite Es. apply in_or_app. right. now left.
+Qed.
+
+(* ------------------------------------------------------------------ *)
+(* statements of C04 and C16 on the model                               *)
+(* ------------------------------------------------------------------ *)
+
+(* ordering the operands of every addition does not change the chain *)
+Lemma evaluate_from_cop : forall p c, evaluate_from c (map cop p) = evaluate_from c p.
+Proof.
+  induction p as [|[a b] p IH]; intros c; [reflexivity|]. cbn [map]. unfold cop at 1. cbn [fst snd].
+  destruct (b <? a)%nat; cbn [evaluate_from];
+    destruct (nth_error c a) as [va|]; destruct (nth_error c b) as [vb|]; try reflexivity.
+  - rewrite (Z.add_comm vb va). apply IH.
+  - apply IH.
+Qed.
+
+Lemma statement_names_legal p c : wf_program p -> evaluate p = Ok c -> forall k nm,
+  0 <= k < Z.of_nat (length c) -> nm = stmt_name (nth (Z.to_nat k) c 0) k ->
+  name_shape nm /\ describes nm (nth (Z.to_nat k) c 0) k /\ ident_ok nm = true /\ dbl_class nm = false.
+Proof.
+  intros Hwf Hev k nm Hk ->. destruct (evaluate_spec p Hwf) as (c' & Ec' & _ & Hpos).
+  rewrite Hev in Ec'. injection Ec' as <-.
+  assert (Hv : 0 <= nth (Z.to_nat k) c 0) by (assert (1 <= nth (Z.to_nat k) c 0) by (apply Hpos, nth_In; lia); lia).
+  destruct (stmt_name_shape _ k Hv (proj1 Hk)) as [Hs Hd]. destruct (name_shape_legal _ Hs) as [L1 L2]. auto.
+Qed.
+
+Theorem build_translate p c : wf_program p -> evaluate p = Ok c -> NoDup c -> Z.of_nat (length p) < 2 ^ 63 ->
+  exists t, build_program p = Ok t /\ wf_script t = true /\
+            translate_compile t = Ok (map cop p) /\ translate_eval t = Ok (map cop p, c).
+Proof.
+  intros Hwf Hev Hnd Hlen.
+  destruct (build_facts p c Hwf Hev Hnd) as (t & ts & Eb & Etr & Ecomp & (init & last & Et & Elast & Hinit) & _ & Hgood).
+  assert (Etc : translate_compile t = Ok (map cop p)).
+  { unfold translate_compile, translate. rewrite Etr. cbn [obind]. exact Ecomp. }
+  exists t. split; [exact Eb|]. split; [|split; [exact Etc|]].
+  - rewrite Et. destruct last as [ln le]. cbn [sname] in Elast. subst ln. apply wf_script_intro.
+    + intros s Hs. destruct (Hinit s Hs) as (k & Hk & Ek).
+      destruct (statement_names_legal p c Hwf Hev k _ Hk Ek) as (_ & _ & L1 & _). split; [exact L1|].
+      apply (good_wf (Z.of_nat (length p))); [exact Hlen|]. apply Hgood. rewrite Et. apply in_or_app. now left.
+    + apply (good_wf (Z.of_nat (length p))); [exact Hlen|].
+      apply (Hgood (mkStmt [] le)). rewrite Et. apply in_or_app. right. now left.
+  - unfold translate_eval. rewrite Etc. cbn [obind]. unfold evaluate. rewrite evaluate_from_cop.
+    fold (evaluate p). rewrite Hev. reflexivity.
+Qed.
+
+Theorem names_unique p c t : wf_program p -> evaluate p = Ok c -> NoDup c -> build_program p = Ok t ->
+  NoDup (map sname t).
+Proof.
+  intros Hwf Hev Hnd Eb. destruct (build_facts p c Hwf Hev Hnd) as (t' & ts & Eb' & Etr & _).
+  rewrite Eb in Eb'. injection Eb' as <-.
+  destruct (tr_stmts_names _ _ _ Etr) as [Hn Hd]. cbn [t_init t_vars map] in Hn, Hd. rewrite app_nil_r in Hn.
+  specialize (Hd (NoDup_nil _)). rewrite Hn in Hd. apply NoDup_rev in Hd. now rewrite rev_involutive in Hd.
+Qed.
+
+Theorem only_last_unnamed p c t : wf_program p -> evaluate p = Ok c -> NoDup c -> build_program p = Ok t ->
+  exists init last, t = init ++ [last] /\ sname last = [] /\ forall s, In s init -> sname s <> [].
+Proof.
+  intros Hwf Hev Hnd Eb. destruct (build_facts p c Hwf Hev Hnd) as (t' & ts & Eb' & _ & _ & (init & last & Et & El & Hi) & _).
+  rewrite Eb in Eb'. injection Eb' as <-. exists init, last. split; [exact Et|]. split; [exact El|].
+  intros s Hs. destruct (Hi s Hs) as (k & Hk & Ek).
+  destruct (statement_names_legal p c Hwf Hev k _ Hk Ek) as (Hsh & _). now apply name_shape_nonempty.
+Qed.
+
+Theorem names_legal p c t : wf_program p -> evaluate p = Ok c -> NoDup c -> build_program p = Ok t ->
+  forall s, In s t -> sname s <> [] ->
+    name_shape (sname s) /\ ident_ok (sname s) = true /\ dbl_class (sname s) = false.
+Proof.
+  intros Hwf Hev Hnd Eb s Hs Hne.
+  destruct (build_facts p c Hwf Hev Hnd) as (t' & ts & Eb' & _ & _ & (init & last & Et & El & Hi) & _).
+  rewrite Eb in Eb'. injection Eb' as <-. rewrite Et in Hs. apply in_app_or in Hs as [Hs|[<-|[]]]; [|contradiction].
+  destruct (Hi s Hs) as (k & Hk & Ek).
+  destruct (statement_names_legal p c Hwf Hev k _ Hk Ek) as (H1 & _ & H2 & H3). auto.
+Qed.
+
+Theorem names_faithful p c t : wf_program p -> evaluate p = Ok c -> NoDup c -> build_program p = Ok t ->
+  exists bs, stmt_bindings t = Ok bs /\ map fst bs = map sname t /\
+    forall nm idx, In (nm, idx) bs -> nm <> [] ->
+      0 <= idx < Z.of_nat (length c) /\ describes nm (nth (Z.to_nat idx) c 0) idx.
+Proof.
+  intros Hwf Hev Hnd Eb. destruct (build_facts p c Hwf Hev Hnd) as (t' & ts & Eb' & Etr & _ & _ & Hv & _).
+  rewrite Eb in Eb'. injection Eb' as <-.
+  exists (rev (t_vars ts)). split; [unfold stmt_bindings; rewrite Etr; reflexivity|]. split.
+  - destruct (tr_stmts_names _ _ _ Etr) as [Hn _]. cbn [t_init t_vars map] in Hn. rewrite app_nil_r in Hn.
+    rewrite map_rev, Hn. apply rev_involutive.
+  - intros nm idx Hin Hnm. apply in_rev in Hin. destruct (Hv nm idx Hin Hnm) as [Hk Ek]. split; [exact Hk|].
+    now destruct (statement_names_legal p c Hwf Hev idx _ Hk Ek) as (_ & Hd & _).
+Qed.
+
+(* ---- decidable checks for the non-vacuity examples ---- *)
+Fixpoint wf_check (i : nat) (p : list op) : bool :=
+  match p with
+  | [] => true
+  | (a, b) :: r => (a <=? i)%nat && (b <=? i)%nat && wf_check (S i) r
+  end.
+
+Lemma wf_check_from : forall p i, wf_check i p = true -> wf_from i p.
+Proof.
+  induction p as [|[a b] p IH]; intros i H t x y Ht; [destruct t; discriminate|].
+  cbn [wf_check] in H. apply andb_true_iff in H as [H H3]. apply andb_true_iff in H as [H1 H2].
+  apply Nat.leb_le in H1, H2. destruct t as [|t]; cbn [nth_error] in Ht.
+  - injection Ht as <- <-. lia.
+  - specialize (IH _ H3 t x y Ht). lia.
+Qed.
+
+Lemma wf_check_ok p : wf_check 0 p = true -> wf_program p.
+Proof. intros H. apply wf_program_from. now apply wf_check_from. Qed.
+
+Lemma has_dup_NoDup : forall c, has_dup c = false -> NoDup c.
+Proof.
+  induction c as [|x c IH]; intros H; [constructor|]. cbn [has_dup] in H. apply orb_false_iff in H as [H1 H2].
+  constructor; [|now apply IH]. intros Hin.
+  assert (existsb (Z.eqb x) c = true) by (apply existsb_exists; exists x; split; [assumption|apply Z.eqb_refl]). congruence.
+Qed.
